@@ -265,6 +265,24 @@ Section Oracle.
     destruct (Z.eqb (c_exp c) 0) eqn:E; [lia|]. apply Z.eqb_neq in E. split; [assumption | lia].
   Qed.
 
+  (* claim times are unbounded integers in the model (Z): no magnitude wraps.  A
+     zero or negative exp (any year before 1970, however far) is never accepted by
+     a verifier whose clock is past 1970 and whose offset is not negative *)
+  Theorem negative_exp_rejected : forall v ks t m now c alg,
+    verify_id_token verify v ks t m now = Accept c alg ->
+    (0 <= v_offset v)%Z -> (0 <= now)%Z -> (0 < c_exp c)%Z.
+  Proof.
+    intros v ks t m now c alg A Ho Hn.
+    assert (Hz : (zero_unix * ns <= now)%Z) by (unfold zero_unix, ns; lia).
+    destruct (id_token_not_expired _ _ _ _ _ _ _ A Ho Hz) as [_ Hlt]. unfold ns in Hlt. lia.
+  Qed.
+
+  (* ... and an exp arbitrarily far in the future never makes an otherwise
+     acceptable token expire: the expiry check is exactly now+offset < exp *)
+  Theorem expiration_exact : forall c off now,
+    chk_expiration c off now = None <-> (now + off < instant (c_exp c))%Z.
+  Proof. exact chk_expiration_none. Qed.
+
   (* C01_tokens_sound *)
   Theorem tokens_sound : forall v ks t m access_token now c alg,
     verify_tokens verify H v ks t m access_token now = Accept c alg ->
